@@ -126,6 +126,119 @@ def numpy_model(rng, rounds=40):
     return cases, mism, sorted(set(bad))[:10]
 
 
+def guarded_model(rng, rounds=25):
+    """The guarded part of the model (selections by a SYMBOLIC mask: reads, stores, where, size, isclose, all) cannot be
+    reached with concrete inputs.  Here the mask cells are Boolean symbols, the operation is run through the model, the
+    resulting terms are evaluated under a concrete assignment of the symbols, and the outcome must equal what real
+    numpy gives for that concrete mask."""
+    import z3
+    cases = mism = 0
+    bad = []
+
+    def ev(x, pairs):
+        if isinstance(x, SV):
+            if x.c is not None:
+                return float(x.c)
+            t = z3.simplify(z3.substitute(x.t, *pairs))
+            return float(Fraction(t.numerator_as_long(), t.denominator_as_long()))
+        if isinstance(x, SB):
+            if x.c is not None:
+                return bool(x.c)
+            return z3.is_true(z3.simplify(z3.substitute(x.t, *pairs)))
+        if isinstance(x, symnp.GA):
+            return np.array([ev(v, pairs) for g, v in zip(x.guards, np.asarray(x.vals).flat) if ev(g, pairs)])
+        if isinstance(x, np.ndarray):
+            if x.dtype == object:
+                return np.array([ev(c, pairs) for c in x.flat]).reshape(x.shape)
+            return np.asarray(x)
+        return x
+
+    for r in range(rounds):
+        n = rng.randint(1, 6)
+        a = np.array([rng.randint(-8, 8) / rng.choice([1, 2, 4]) for _ in range(n)], dtype=float)
+        b = np.array([rng.randint(-8, 8) / rng.choice([1, 2, 4]) for _ in range(n)], dtype=float)
+        mask = np.array([rng.random() < 0.5 for _ in range(n)])
+        syms = [z3.Bool(f"conf.m{r}.{i}") for i in range(n)]
+        pairs = [(sy, z3.BoolVal(bool(m))) for sy, m in zip(syms, mask)]
+        smask = np.empty(n, dtype=object)
+        for i, sy in enumerate(syms):
+            smask[i] = SB(t=sy)
+        smask = smask.view(symnp.VArr)
+        idx = np.array([rng.randrange(n) for _ in range(rng.randint(1, n + 2))])
+        tab = np.array([[float(rng.randint(0, 1)), rng.randint(-5, 5) / 2, rng.randint(-5, 5) / 2] for _ in range(n)])
+
+        def store_scalar():
+            d = symnp.array(a)
+            d[smask] = 5
+            return d
+
+        def store_scalar_np():
+            d = a.copy()
+            d[mask] = 5
+            return d
+
+        def store_sel():
+            d = symnp.array(a)
+            d[smask] = symnp.array(b)[smask]
+            return d
+
+        def store_sel_np():
+            d = a.copy()
+            d[mask] = b[mask]
+            return d
+
+        def store_rows():
+            t = symnp.array(tab)
+            sidx = idx.view(symnp.VArr)
+            writable = sidx[smask[sidx]]
+            scratch = symnp.zeros(n, dtype=float)
+            scratch[sidx] = symnp.array(b)[sidx] if len(idx) <= n else 0
+            t[writable, 2] = scratch[writable]
+            return t
+
+        def store_rows_np():
+            t = tab.copy()
+            writable = idx[mask[idx]]
+            scratch = np.zeros(n)
+            scratch[idx] = b[idx] if len(idx) <= n else 0
+            t[writable, 2] = scratch[writable]
+            return t
+
+        sa, sb = symnp.array(a), symnp.array(b)
+        tests = [
+            ("g.read", lambda: sa[smask], lambda: a[mask]),
+            ("g.store_scalar", store_scalar, store_scalar_np),
+            ("g.store_selection", store_sel, store_sel_np),
+            ("g.store_rows_column", store_rows, store_rows_np),
+            ("g.rows_column_read", lambda: symnp.array(tab)[idx.view(symnp.VArr)[smask[idx.view(symnp.VArr)]], 1], lambda: tab[idx[mask[idx]], 1]),
+            ("g.where3", lambda: symnp.where(smask, sa, sb), lambda: np.where(mask, a, b)),
+            ("g.where3_sel", lambda: symnp.where(sa[smask] > 0, sa[smask], 0), lambda: np.where(a[mask] > 0, a[mask], 0)),
+            ("g.size", lambda: sa[smask].size, lambda: a[mask].size),
+            ("g.all", lambda: symnp.all(sa[smask] <= sb[smask]), lambda: np.all(a[mask] <= b[mask])),
+            ("g.any", lambda: symnp.any(sa[smask] > sb[smask]), lambda: np.any(a[mask] > b[mask])),
+            ("g.isclose", lambda: symnp.isclose(sa[smask], 1.0, rtol=0.5, atol=0), lambda: np.isclose(a[mask], 1.0, rtol=0.5, atol=0)),
+            ("g.copyto", lambda: (lambda d: (symnp.copyto(d, sb, where=smask), d)[1])(symnp.array(a)),
+             lambda: (lambda d: (np.copyto(d, b, where=mask), d)[1])(a.copy())),
+            ("g.sum", lambda: symnp.sum(sa * smask), lambda: np.sum(a * mask)),
+        ]
+        if mask.any():
+            tests += [("g.max", lambda: symnp.max(sa[smask]), lambda: np.max(a[mask])),
+                      ("g.min", lambda: symnp.min(sa[smask]), lambda: np.min(a[mask]))]
+        for name, f, g in tests:
+            cases += 1
+            try:
+                got, want = ev(f(), pairs), g()
+                got, want = np.asarray(got), np.asarray(want)
+                ok = got.shape == want.shape and bool(np.array_equal(got.astype(float), want.astype(float)))
+            except Exception as e:
+                ok = False
+                name += f" ({type(e).__name__}: {e})"
+            if not ok:
+                mism += 1
+                bad.append(name)
+    return cases, mism, sorted(set(bad))[:10]
+
+
 def cross_check(pkg, rng, rounds=6):
     """Real functions, concrete inputs: under the model vs natively."""
     from .mode import native_pkg
@@ -206,5 +319,7 @@ def run(pkg, seed=0):
     rng = random.Random(seed)
     c1, m1, b1 = numpy_model(rng)
     c2, m2, b2 = cross_check(pkg, rng)
-    return {"numpy_model_cases": c1, "numpy_model_mismatches": m1, "numpy_model_bad": b1,
+    c3, m3, b3 = guarded_model(random.Random(seed + 7))
+    c1, m1, b1 = c1 + c3, m1 + m3, b1 + b3
+    return {"numpy_model_cases": c1, "numpy_model_mismatches": m1, "numpy_model_bad": b1, "guarded_model_cases": c3,
             "cross_check_cases": c2, "cross_check_mismatches": m2, "cross_check_bad": b2}
